@@ -3,17 +3,27 @@ Spec: specs/Batcher.  Binding: harness/batcher (real requests of 4 signals throu
 QueueBatchSettings encodings; Request.MergeSplit directly and the real queue + batcher with
 wait_for_result).
   1. TLC exhaustive design check (BatcherMC): producers, consumer, timer, export completions with
-     failures, shutdown; all clauses of the statement as invariants; both sizers.  A second, tiny
-     run with Oversized = "hang" (the pinned MergeSplit) must FAIL Terminates: the invariant bites.
-  2. TLC generates request-shape sequences x sizer x max (BatcherGen) with the specified parts for the
-     items sizer; they are replayed through MergeSplit ("split" scripts) for 4 signals, and with
-     min_size / flush timeout / failing exports / concurrent senders through the real batcher
-     ("batch" scripts).
+     failures, shutdown; all clauses of the statement as invariants; both sizers.  The configurations
+     describe the tree as it is (callback attached unconditionally, remainder without items returned
+     as a part) with the invariant in the form Property \\/ KnownRider; three pinned-code variants must
+     FAIL on their own: Oversized = "hang" (Terminates), AttachFirst = "always" (DoneErrIff),
+     Remainder = "kept" (DoneErrIff); with all repaired the plain Property holds.
+  2. Payload universe (PayloadFill.tla, evaluated by TLC): shapes (nesting, empty containers, long
+     runs of items / of empty metric entries) x fills (which items, metrics, scopes, resources are left
+     at their protobuf defaults: anonymous items, Metric entries of zero bytes, blank scopes / resources,
+     mixed with ordinary ones).  TLC generates request sequences (shape x big item x fill) x sizer x max
+     (BatcherGen) with the specified parts for the items sizer; they are replayed through MergeSplit
+     ("split" scripts) for 4 signals, and with min_size / flush timeout / failing exports / concurrent or
+     staggered senders through the real batcher ("batch" scripts; there the return of every MergeSplit
+     inside the batcher is recorded too, through a delegating request wrapper).
   3. Everything recorded is validated by TLC against the monitor BatcherTrace.tla (clauses of
-     BatcherObs.tla); verdicts come from there.  Items-sizer parts that differ from the specified
-     consecutive chunks with the monitor satisfied are model drift.
+     BatcherObs.tla; SizeBound on sizes MEASURED by the driver); verdicts come from there.  Anonymous
+     items carry no id: the recorder pairs one that leaves with an indistinguishable one that entered
+     (they are counted, not tracked; callbacks need attribution, so fills that blank resources are used
+     for split scripts only).  Items-sizer parts that differ from the specified consecutive chunks with
+     the monitor satisfied are model drift.
 Scripts that do not finish (10 s / 1 GiB watchdog in a sub-process, confirmed by a second run) are
-Terminates violations.
+Terminates violations.  Design runs, generator runs and the pieces of step 3 run side by side.
 """
 import bisect, itertools, json, os, re
 from concurrent.futures import ThreadPoolExecutor
@@ -53,8 +63,9 @@ ParamBigMax   == %d
 
 
 def mc_cfg(Inv=None, **kw):
-    """BatcherMC.cfg (the tree as it is: oversized item sent alone, callback attached unconditionally, invariant
-    PropertyKnown = Inv \\/ KnownPredicate of the open finding C04-done-first-part) with constants / invariant replaced"""
+    """BatcherMC.cfg (the tree as it is: oversized item sent alone, callback attached unconditionally, remainder without
+    items returned as a part; invariant PropertyKnown = Inv \\/ KnownPredicate of the open findings C04-done-first-part and
+    C04-split-dataless-remainder) with constants / invariant replaced"""
     base = open(os.path.join(vlib.VERIF, "specs/Batcher/BatcherMC.cfg")).read()
     if Inv:
         base, n = re.subn(r"(?m)^INVARIANT \w+$", "INVARIANT " + Inv, base)
@@ -367,12 +378,14 @@ def report(c, scripts, results, viol, ctxd, trace_path):
 def run(c):
     q = c.quick()
     # ------------------------------------------------------------------ 1. design
+    tail = dict(Reqs='{"r6", "r2", "r1"}', Sizer='"bytes"', MaxSize=3, MinSize=2)      # r6 leaves a remainder without items
     mcs = [dict(), dict(Sizer='"bytes"', MaxSize=3, MinSize=2), dict(MaxSize=0, MinSize=4),
            dict(Reqs='{"r2", "r5", "r1"}', Sizer='"bytes"', MaxSize=3, MinSize=2),
-           dict(Reqs='{"r1", "r2", "r3", "r4"}', MaxSize=3, MinSize=3)]
+           dict(Reqs='{"r1", "r2", "r3", "r4"}', MaxSize=3, MinSize=3), tail]
     if not q:
         mcs += [dict(MaxSize=1, MinSize=0), dict(MaxSize=3, MinSize=1), dict(Sizer='"bytes"', MaxSize=5, MinSize=5),
-                dict(Reqs='{"r1", "r2", "r3", "r4"}', Sizer='"bytes"', MaxSize=2, MinSize=1), dict(MaxSize=4, MinSize=4, CanFail="FALSE")]
+                dict(Reqs='{"r1", "r2", "r3", "r4"}', Sizer='"bytes"', MaxSize=2, MinSize=1), dict(MaxSize=4, MinSize=4, CanFail="FALSE"),
+                dict(Reqs='{"r6", "r5", "r3"}', Sizer='"bytes"', MaxSize=3, MinSize=3), dict(tail, MinSize=0)]
     # the design runs are independent of each other: side by side (most of their time is JVM start-up)
     W = max(2, min(6, vlib.NCPU // 4))
     with ThreadPoolExecutor(max_workers=4) as ex:
@@ -381,13 +394,16 @@ def run(c):
         rid = dict(Reqs='{"r2", "r5", "r1"}', Sizer='"bytes"', MaxSize=3, MinSize=2)
         fhang = ex.submit(c.tlc, "Batcher", "BatcherMC", cfg_text=mc_cfg(Sizer='"bytes"', MaxSize=3, MinSize=2, Oversized='"hang"'),
                           timeout=300, label="design_hang", count=False, workers=W)
-        fatt = ex.submit(c.tlc, "Batcher", "BatcherMC", cfg_text=mc_cfg(Inv="Property", **rid), timeout=300, label="design_attach",
-                         count=False, workers=W)
-        frep = ex.submit(c.tlc_must_pass, "Batcher", "BatcherMC", cfg_text=mc_cfg(Inv="Property", AttachFirst='"ifgrew"', **rid),
-                         timeout=300, label="design_repaired", workers=W)
-        for f in fs + [frep]:
+        fatt = ex.submit(c.tlc, "Batcher", "BatcherMC", cfg_text=mc_cfg(Inv="Property", Remainder='"dropped"', **rid), timeout=300,
+                         label="design_attach", count=False, workers=W)
+        ftail = ex.submit(c.tlc, "Batcher", "BatcherMC", cfg_text=mc_cfg(Inv="DoneErrIff", AttachFirst='"ifgrew"', **tail), timeout=300,
+                          label="design_tail", count=False, workers=W)
+        freps = [ex.submit(c.tlc_must_pass, "Batcher", "BatcherMC", timeout=300, label="design_repaired%d" % i, workers=W,
+                           cfg_text=mc_cfg(Inv="Property", AttachFirst='"ifgrew"', Remainder='"dropped"', **kw))
+                 for i, kw in enumerate((rid, tail))]
+        for f in fs + freps:
             f.result()
-        hang, att = fhang.result(), fatt.result()
+        hang, att, tl = fhang.result(), fatt.result(), ftail.result()
     # non-vacuity 1: the pinned MergeSplit (an oversized item is never extracted) must violate Terminates
     if hang.ok or hang.error != ("invariant", "PropertyKnown"):
         raise vlib.Inconclusive("the model of the non-terminating MergeSplit does not violate Terminates: %s" % (hang.error,))
@@ -399,6 +415,14 @@ def run(c):
     c.extra["design_attach_model"] = "AttachFirst=always violates the plain Property (DoneErrIff) after %d states" % att.distinct
     if c.match_finding(KNOWN_ATTACH) is not None:       # a counterexample of the model alone is never a violation
         c.violation("design level: DoneErrIff is reachable in Batcher.tla with AttachFirst=always", signature=KNOWN_ATTACH)
+    # open finding C04-split-dataless-remainder at design level: with the tree's split (Remainder = "kept": the remainder
+    # without items is returned as a part) and the callback attachment repaired, DoneErrIff must still be violated; with
+    # both repaired (design_repaired1) the plain Property holds on the same requests
+    if tl.ok or tl.error != ("invariant", "DoneErrIff"):
+        raise vlib.Inconclusive("the model of the remainder without items does not violate DoneErrIff: %s" % (tl.error,))
+    c.extra["design_tail_model"] = "Remainder=kept (AttachFirst=ifgrew) violates DoneErrIff after %d states" % tl.distinct
+    if c.match_finding(KNOWN_TAIL) is not None:
+        c.violation("design level: DoneErrIff is reachable in Batcher.tla with Remainder=kept", signature=KNOWN_TAIL)
     binp = c.go_build("batcher", pkg="./cmd")
     lib = payload_lib(c)
 
@@ -493,9 +517,15 @@ def run(c):
     c.assumptions += ["completion callbacks are observed through wait_for_result: Send(r) returning = the callback of r fired; a second "
                       "firing is only visible through its side effects (the pooled done object), not directly",
                       "sizes are measured by the driver: items found in the part / length of its protobuf encoding",
-                      "item context = digest of resource/scope/schema URLs/metric descriptor (profile header)/item content as found"]
-    c.finish_args = dict(rule="every sequence of N request shapes from the TLC shape library x sizer x max in the stated grid (bounded "
-                              "exhaustive; big item at the first positions for bytes) plus simulated longer ones, each for 4 signals "
-                              "through MergeSplit; seeded batcher scripts (min/flush/failures/concurrent senders) over the same "
-                              "behaviours; non-trivial = at least 2 parts",
+                      "item context = digest of resource/scope/schema URLs/metric descriptor (profile header)/item content as found",
+                      "items left at their defaults carry no id: the recorder gives one that leaves the id of an indistinguishable "
+                      "item (same content and context) that entered and has not left yet, else of one that differs in the metric "
+                      "descriptor only, else an id nobody entered; such items are counted, not tracked",
+                      "batch scripts: the batcher sees the real requests through a delegating wrapper that records what MergeSplit "
+                      "returns; sizers and encoding unwrap it"]
+    c.finish_args = dict(rule="every sequence of N request payloads (shape from the TLC shape library x fill: which elements are left "
+                              "at their defaults) x sizer x max in the stated grid (bounded exhaustive; big item at the first "
+                              "positions for bytes) plus simulated longer ones, each for 4 signals through MergeSplit; seeded "
+                              "batcher scripts (min/flush/failures/concurrent or staggered senders) over the same behaviours plus a "
+                              "directed family (small first request, max = min just below its size); non-trivial = at least 2 parts",
                          distinct_nontrivial=nontrivial)
